@@ -274,9 +274,35 @@ def describe(o):
     return {"k": "lit", "v": repr(o)}
 
 
-def compare_desc(a, b, tol, what, info, loose=False, values=True, floor=0.0, path="r"):
+def compare_denotation(a, b, tol, what, info, path):
+    def norm(d):
+        if d["k"] == "num":
+            return [], [], d["v"].reshape(()) if d["v"].size == 1 else d["v"], d["mag"], None
+        labels = [l for l, _ in d["labels"]] if d["k"] == "T" else d["labels"]
+        return labels, d["sizes"], d["v"], d["mag"], (d["tags"] if d["k"] == "T" else d["tagset"])
+    la, sa, va, ma, ta = norm(a)
+    lb, sb, vb, mb, tb = norm(b)
+    if la != lb:
+        raise Violation(what + ":outer-labels", where=path, a=str(la)[:120], b=str(lb)[:120], **info)
+    if sa and sb and sa != sb:
+        raise Violation(what + ":sizes", where=path, **info)
+    if ta is not None and tb is not None and ta != tb:
+        raise Violation(what + ":tag-set", where=path, a=str(ta)[:120], b=str(tb)[:120], **info)
+    if va is None or vb is None:
+        return 0.0
+    e = rel_err(np.asarray(va).reshape(-1), np.asarray(vb).reshape(-1), floor=max(ma, mb))
+    if not e <= tol:
+        raise Violation(what + ":value", where=path, err=e, **info)
+    return e
+
+
+def compare_desc(a, b, tol, what, info, loose=False, values=True, floor=0.0, path="r", cross=False):
     """Raise Violation(what + clause) unless the two descriptions are label-equal. Returns max error."""
     if a["k"] != b["k"]:
+        if cross and {a["k"], b["k"]} <= {"T", "TN", "num"}:
+            # documented: the in-place spelling keeps the (one tensor / empty) network where the plain one hands back the
+            # tensor or scalar -> compare denotations: outer labels, tag set, value
+            return compare_denotation(a, b, tol, what, info, path)
         raise Violation(what + ":kind", where=path, a=a["k"], b=b["k"], **info)
     k = a["k"]
     err = 0.0
@@ -297,13 +323,13 @@ def compare_desc(a, b, tol, what, info, loose=False, values=True, floor=0.0, pat
         if len(a["items"]) != len(b["items"]):
             raise Violation(what + ":length", where=path, **info)
         for i, (x, y) in enumerate(zip(a["items"], b["items"])):
-            err = max(err, compare_desc(x, y, tol, what, info, loose, values, floor, f"{path}[{i}]"))
+            err = max(err, compare_desc(x, y, tol, what, info, loose, values, floor, f"{path}[{i}]", cross))
         return err
     if k == "dict":
         if sorted(a["items"]) != sorted(b["items"]):
             raise Violation(what + ":keys", where=path, **info)
         for kk in a["items"]:
-            err = max(err, compare_desc(a["items"][kk], b["items"][kk], tol, what, info, loose, values, floor, f"{path}[{kk}]"))
+            err = max(err, compare_desc(a["items"][kk], b["items"][kk], tol, what, info, loose, values, floor, f"{path}[{kk}]", cross))
         return err
     # tensors / networks
     if a["cls"] != b["cls"]:
@@ -323,8 +349,6 @@ def compare_desc(a, b, tol, what, info, loose=False, values=True, floor=0.0, pat
                 raise Violation(what + ":tag-multiset", where=path, a=str(a["tags"])[:160], b=str(b["tags"])[:160], **info)
             if a["n"] != b["n"]:
                 raise Violation(what + ":num-tensors", where=path, a=a["n"], b=b["n"], **info)
-            if a["left"] != b["left"]:
-                raise Violation(what + ":left-inds", where=path, a=str(a["left"])[:120], b=str(b["left"])[:120], **info)
     else:
         if a["tags"] != b["tags"]:
             raise Violation(what + ":tags", where=path, a=str(a["tags"])[:120], b=str(b["tags"])[:120], **info)
@@ -350,8 +374,15 @@ def rarr(rng, shape, dtype):
     return np.asarray(x, dtype=dtype)
 
 
-def refill(tn, rng, dtype, order):
-    """Overwrite the arrays of a structured network from our own stream (site order)."""
+def refill(tn, rng, dtype, order, prefix="e"):
+    """Overwrite the arrays of a structured network from our own stream (site order) and give its bonds deterministic
+    names (the library draws them from a per-process random prefix)."""
+    ren = {}
+    for key in order:
+        for ix in tn[key].inds:
+            if ix not in ren and len(tn.ind_map[ix]) > 1:
+                ren[ix] = f"{prefix}{len(ren)}"
+    tn.reindex_(ren)
     for key in order:
         t = tn[key]
         t.modify(data=rarr(rng, t.shape, dtype))
@@ -923,6 +954,11 @@ def invoke(obj, meth, call, seed, extra_kw=None):
     except Exception as e:  # noqa
         r = Raised(e)
         if not r.inquimb:
+            tb = e.__traceback__
+            if isinstance(e, TypeError) and (tb is None or tb.tb_next is None or
+                                             all("functools" in (f.filename or "") for f in __import__("traceback").extract_tb(tb)[1:])):
+                r.where = "call-boundary"  # the spelling's signature does not accept these arguments
+                return r
             raise
         return r
 
@@ -932,13 +968,23 @@ def arg_fp(call):
     return fingerprint([call.args, kw])
 
 
+def inout_value(v):
+    """Documented in/out arguments (gauges dict keyed by possibly fresh bond names): the sorted values."""
+    if isinstance(v, dict):
+        vals = [np.asarray(a, dtype=np.complex128).ravel() for a in v.values()]
+        return np.sort_complex(np.concatenate(vals)) if vals else np.zeros(0)
+    return v
+
+
 def same_object_rule(plain, inpl, receiver, info, path="r"):
     """Wherever the plain spelling hands back a tensor/network of the receiver's kind, the in-place spelling must hand
     back the receiver object itself."""
     qtn = Q()
     kinds = (qtn.Tensor,) if isinstance(receiver, qtn.Tensor) else (qtn.TensorNetwork,)
-    if isinstance(plain, kinds):
-        if isinstance(inpl, kinds) and inpl is not receiver:
+    if info["name"] in INPLACE_RETURNS_NEW:
+        return
+    if isinstance(inpl, kinds):
+        if inpl is not receiver:
             raise Violation("inplace-returns-other-object", where=path, **info)
         return
     if isinstance(plain, (list, tuple)) and isinstance(inpl, (list, tuple)) and len(plain) == len(inpl):
@@ -975,13 +1021,13 @@ def run_pair(case):
 
     # ---- (2) in-place spelling on a copy ----------------------------------------
     x2, c2 = setup(case)
-    f2 = fingerprint(x2)
+    f2, fa2 = fingerprint(x2), arg_fp(c2)
     x2c = x2.copy()
     r2 = invoke(x2c, name + "_", c2, seed)
     d = fp_diff(f2, fingerprint(x2))
     if d:
         raise Violation("copy-not-isolated", what=d, **info)
-    d = fp_diff(fa, arg_fp(c2))
+    d = fp_diff(fa2, arg_fp(c2))
     if d and not isinstance(r2, Raised):
         # arguments of the in-place spelling: only documented in/out arguments may change
         if not c2.inout and name not in INPLACE_ARGS_DOCUMENTED:
@@ -996,15 +1042,13 @@ def run_pair(case):
         raise Violation("raises-one-spelling", which=which, exc=bad.kind, at=bad.where, msg=bad.msg, **info)
 
     same_object_rule(r1, r2, x2c, info)
+    if c1.inout:
+        r1 = (r1, [inout_value(c1.kwargs[k]) for k in c1.inout])
+        r2 = (r2, [inout_value(c2.kwargs[k]) for k in c2.inout])
     d1 = describe(r1)
     # the in-place spelling's result: where it returned the receiver describe the receiver (it is the same object)
     d2 = describe(r2)
-    err = compare_desc(d1, d2, tol, "spelling", info)
-    if isinstance(r1, (qtn.Tensor, qtn.TensorNetwork)) and r2 is None:
-        pass
-    # receiver of the in-place spelling must now be label-equal to the plain result when that is a same-kind object
-    if isinstance(r1, type(x2c)) and r2 is x2c:
-        pass
+    err = compare_desc(d1, d2, tol, "spelling", info, cross=True)
 
     # ---- (1c) explicit inplace=False on methods whose documented default is in-place ----
     if documented_inplace:
@@ -1028,6 +1072,8 @@ def run_pair(case):
     r3 = invoke(x3p, name, c3, seed)
     if isinstance(r3, Raised):
         raise Violation("axis-order:raises", exc=r3.kind, at=r3.where, msg=r3.msg, **info)
+    if c3.inout:
+        r3 = (r3, [inout_value(c3.kwargs[k]) for k in c3.inout])
     err = max(err, compare_desc(d1, describe(r3), tol, "axis-order", info, loose=c1.loose, values=not c1.gauge))
 
     n_t = 1 if is_tensor(x1) else keep.num_tensors
@@ -1038,3 +1084,553 @@ def run_pair(case):
 
 # in-place spellings documented to modify their tensor-network arguments as well
 INPLACE_ARGS_DOCUMENTED = {"align"}
+# in-place spellings documented to consume the receiver and hand back a new network
+# (TensorNetworkGenOperator.apply: "with inplace=True the tensors and indices of self are consumed ... into the result")
+INPLACE_RETURNS_NEW = {"apply"}
+
+
+# ---- generic network recipes ------------------------------------------------------
+
+@recipe("balance_bonds")
+def r_balance(x, rng):
+    return Call(tol=INV64)
+
+
+@recipe("antidiag_gauge")
+def r_antidiag(x, rng):
+    return Call(x=plant(x, "antidiag", rng), loose=True)
+
+
+@recipe("diagonal_reduce")
+def r_diag(x, rng):
+    return Call(x=plant(x, "diag", rng), loose=True)
+
+
+@recipe("column_reduce")
+def r_column(x, rng):
+    return Call(x=plant(x, "column", rng), loose=True)
+
+
+@recipe("rank_simplify")
+def r_rank(x, rng):
+    return Call(loose=True)
+
+
+@recipe("split_simplify", "pair_simplify", "loop_simplify")
+def r_simplify_planted(x, rng):
+    y = plant(x, "product", rng) if rng.integers(0, 3) else x
+    return Call(x=y, loose=True, tol=INV64)
+
+
+@recipe("full_simplify")
+def r_full_simplify(x, rng):
+    y = plant(x, pick(rng, ["product", "diag", "column", "antidiag"]), rng) if rng.integers(0, 2) else x
+    return Call(pick(rng, ["ADCR", "ADCRSLP", "R", "SLP"]), x=y, loose=True, tol=INV64)
+
+
+@recipe("compress_simplify")
+def r_compress_simplify(x, rng):
+    return Call(loose=True, tol=INV64, atol=1e-12)
+
+
+@recipe("canonize_around", "gauge_local")
+def r_tags_gauge(x, rng):
+    return Call([pick(rng, site_keys(x))], tol=INV64)
+
+
+@recipe("compress_all", "compress_all_1d", "compress_all_simple")
+def r_compress_all(x, rng):
+    return Call(tol=INV64, **NOTRUNC)
+
+
+@recipe("compress_all_tree")
+def r_compress_tree(x, rng):
+    return Call(tol=INV64, **NOTRUNC)
+
+
+@recipe("gauge_all", "gauge_all_canonize", "gauge_all_simple")
+def r_gauge_all(x, rng):
+    return Call(tol=INV64)
+
+
+@recipe("gauge_all_belief_propagation")
+def r_gauge_bp(x, rng):
+    return Call(tol=INV64)
+
+
+@recipe("gauge_all_random")
+def r_gauge_random(x, rng):
+    return Call(seed=int(rng.integers(0, 2 ** 31)), tol=INV64)
+
+
+@recipe("contract")
+def r_contract(x, rng):
+    mode = int(rng.integers(0, 4))
+    if mode == 0:
+        return Call(all)
+    if mode == 1:
+        return Call(...)
+    if mode == 2:
+        a, b, _ = pick(rng, neighbours(x))
+        return Call([a, b])
+    return Call(pick(rng, stags(x)))
+
+
+@recipe("contract_tags")
+def r_contract_tags(x, rng):
+    mode = int(rng.integers(0, 3))
+    if mode == 0:
+        a, b, _ = pick(rng, neighbours(x))
+        return Call([a, b], which="any")
+    if mode == 1:
+        return Call(all)
+    return Call(pick(rng, stags(x)), which="any")
+
+
+@recipe("contract_around")
+def r_contract_around(x, rng):
+    return Call([pick(rng, site_keys(x))], tol=INV64, loose=True, **NOTRUNC)
+
+
+@recipe("contract_compressed")
+def r_contract_compressed(x, rng):
+    return Call("greedy", tol=INV64, loose=True, **NOTRUNC)
+
+
+@recipe("drape_bond_between")
+def r_drape(x, rng):
+    keys = site_keys(x)
+    a, b, _ = pick(rng, neighbours(x))
+    rest = [k for k in keys if k not in (a, b)]
+    if not rest:
+        raise Reject("needs a third tensor")
+    return Call(a, b, pick(rng, rest))
+
+
+@recipe("equalize_norms")
+def r_equalize(x, rng):
+    return Call() if rng.integers(0, 2) else Call(1.0)
+
+
+@recipe("expand_bond_dimension")
+def r_expand(x, rng):
+    noisy = bool(rng.integers(0, 2))
+    if noisy:
+        return Call(4, rand_strength=0.1, gauge=True)
+    return Call(4)
+
+
+@recipe("fit")
+def r_fit(x, rng):
+    tgt = other_like(x, rng)
+    return Call(tgt, method="als", steps=2, tol=INV64, gauge=True)
+
+
+@recipe("fuse_multibonds")
+def r_fuse_multibonds(x, rng):
+    return Call()
+
+
+@recipe("gate_inds")
+def r_gate_inds(x, rng):
+    o = outer(x)
+    two = len(o) >= 2 and bool(rng.integers(0, 2))
+    if two:
+        a, b, _ = pick(rng, neighbours(x))
+        oa = [i for i in x[a].inds if i in o]
+        ob = [i for i in x[b].inds if i in o]
+        if not oa or not ob:
+            two = False
+    if two:
+        inds = [sorted(oa)[0], sorted(ob)[0]]
+        contract = pick(rng, [False, True, "split", "reduce-split"])
+    else:
+        inds = [pick(rng, o)]
+        contract = pick(rng, [False, True])
+    d = int(np.prod([x.ind_size(i) for i in inds]))
+    G = rand_gate(rng, d, x.dtype, unitary=True)
+    kw = dict(contract=contract)
+    tol = EXACT64
+    if contract in ("split", "reduce-split"):
+        kw.update(NOTRUNC)
+        tol = INV64
+    if rng.integers(0, 3) == 0:
+        kw["tags"] = ["GATE"]
+    return Call(G, inds, tol=tol, **kw)
+
+
+@recipe("gate_sandwich_inds")
+def r_gate_sandwich_inds(x, rng):
+    o = outer(x)
+    qtn = Q()
+    if hasattr(x, "upper_ind"):
+        s = pick(rng, list(x.sites))
+        up, lo = x.upper_ind(s), x.lower_ind(s)
+    else:
+        pairs = [(a, b) for i, a in enumerate(o) for b in o[i + 1:] if x.ind_size(a) == x.ind_size(b)]
+        up, lo = pick(rng, pairs)
+    d = x.ind_size(up)
+    G = rand_gate(rng, d, x.dtype, unitary=True)
+    return Call(G, [up], [lo], contract=pick(rng, [False, True]))
+
+
+@recipe("gate_inds_with_tn")
+def r_gate_inds_with_tn(x, rng):
+    qtn = Q()
+    o = outer(x)
+    inds = pick(rng, o, min(len(o), int(rng.integers(1, 3))))
+    ts = []
+    inner_, outer_ = [], []
+    for j, ix in enumerate(inds):
+        d = x.ind_size(ix)
+        ts.append(qtn.Tensor(rand_gate(rng, d, x.dtype), inds=(f"go{j}", f"gi{j}"), tags=["GT"]))
+        inner_.append(f"gi{j}")
+        outer_.append(f"go{j}")
+    return Call(inds, qtn.TensorNetwork(ts), inner_, outer_)
+
+
+@recipe("hyperinds_resolve")
+def r_hyperinds(x, rng):
+    qtn = Q()
+    if type(x) is not qtn.TensorNetwork:
+        return Call()
+    # plant a hyper label: three tensors share 'h'
+    y = x.copy()
+    keys = site_keys(y)
+    for k in keys[:3]:
+        t = y[k]
+        t.modify(data=np.stack([np.asarray(t.data), 0.5 * np.asarray(t.data)], axis=-1), inds=(*t.inds, "h"))
+    if len(keys) < 3:
+        return Call()
+    return Call(pick(rng, ["dense", "sparse", "tree"]), x=y, loose=True)
+
+
+@recipe("insert_compressor_between_regions")
+def r_insert_compressor(x, rng):
+    a, b, _ = pick(rng, neighbours(x))
+    return Call([a], [b], tol=INV64, **NOTRUNC)
+
+
+@recipe("insert_operator")
+def r_insert_operator(x, rng):
+    cands = [(a, b, bs) for a, b, bs in neighbours(x) if len(bs) == 1]
+    a, b, bs = pick(rng, cands)
+    d = x.ind_size(bs[0])
+    A = rand_gate(rng, d, x.dtype)
+    if rng.integers(0, 2):
+        a, b = b, a
+    return Call(A, a, b, tags=["OP"])
+
+
+@recipe("multiply")
+def r_multiply(x, rng):
+    c = pick(rng, [2.5, -0.5, 3.0])
+    if rng.integers(0, 2):
+        return Call(c, spread_over=pick(rng, [1, "all", 2]))
+    return Call(c)
+
+
+@recipe("multiply_each")
+def r_multiply_each(x, rng):
+    return Call(pick(rng, [2.0, -0.5]))
+
+
+@recipe("replace_with_svd")
+def r_replace_with_svd(x, rng):
+    a, b, _ = pick(rng, neighbours(x))
+    sub_outer = sorted(set(i for k in (a, b) for i in x[k].inds) - set(x[a].inds).intersection(x[b].inds))
+    left = [i for i in sub_outer if i in x[a].inds] or sub_outer[:1]
+    if len(left) == len(sub_outer):
+        left = left[:-1]
+    if not left:
+        raise Reject("no bipartition")
+    return Call([a, b], left, 1e-14, method="svd", tol=INV64, loose=True)
+
+
+@recipe("view_as")
+def r_view_as(x, rng):
+    qtn = Q()
+    if type(x) is qtn.TensorNetwork:
+        keys = site_keys(x)
+        return Call(qtn.TensorNetworkGen, sites=tuple(range(len(keys))), site_tag_id="T{}")
+    if rng.integers(0, 2):
+        return Call(qtn.TensorNetwork)
+    return Call(qtn.TensorNetworkGen)
+
+
+@recipe("view_like")
+def r_view_like(x, rng):
+    qtn = Q()
+    if type(x) is qtn.TensorNetwork:
+        like = qtn.TensorNetworkGen.new(sites=tuple(range(len(site_keys(x)))), site_tag_id="T{}")
+        return Call(like)
+    like = qtn.TensorNetworkGen.new(sites=tuple(x.sites), site_tag_id=x.site_tag_id)
+    return Call(like)
+
+
+# ---- arbitrary-geometry / structured recipes ------------------------------------------
+
+def ndims(x):
+    return getattr(x, "_NDIMS", 1)
+
+
+def id_fmt(x, letter):
+    return letter + ",".join(["{}"] * ndims(x))
+
+
+def derived_case(x, case_like, cname, bump=1):
+    c = dict(case_like)
+    c["pair"] = [cname, "-"]
+    c["seed"] = int(case_like["seed"]) + bump
+    c["exp"] = 0.0
+    return c
+
+
+def partner(x, rng, kind):
+    """An operator ('op') / vector ('vec') network with the same sites as x and fresh arrays."""
+    qtn = Q()
+    dt = x.dtype
+    seed = int(rng.integers(0, 2 ** 31))
+    r2 = np.random.default_rng(seed)
+    if isinstance(x, (qtn.MatrixProductState, qtn.MatrixProductOperator)):
+        L = x.L
+        y = qtn.MPO_rand(L, 2, phys_dim=2, dtype=dt, seed=3) if kind == "op" else qtn.MPS_rand_state(L, 2, phys_dim=2, dtype=dt, seed=3)
+    elif isinstance(x, (qtn.PEPS, qtn.PEPO)):
+        y = (qtn.PEPO if kind == "op" else qtn.PEPS).rand(x.Lx, x.Ly, 2, phys_dim=2, dtype=dt, seed=3)
+    elif isinstance(x, qtn.PEPS3D):
+        if kind == "op":
+            raise Reject("no 3D operator class")
+        y = qtn.PEPS3D.rand(x.Lx, x.Ly, x.Lz, 2, phys_dim=2, dtype=dt, seed=3)
+    else:
+        n = x.nsites
+        case = {"n": n, "geom": "chain", "dtype": dt, "seed": seed}
+        if kind == "op":
+            y = qtn.TensorNetwork(build_graph_tensors(case, r2, "I{}", "k{}", "b{}", group_tags=False))
+            y.view_as_(qtn.TensorNetworkGenOperator, sites=tuple(range(n)), site_tag_id="I{}", upper_ind_id="k{}", lower_ind_id="b{}")
+        else:
+            y = qtn.TensorNetwork(build_graph_tensors(case, r2, "I{}", "k{}", group_tags=False))
+            y.view_as_(qtn.TensorNetworkGenVector, sites=tuple(range(n)), site_tag_id="I{}", site_ind_id="k{}")
+        return y
+    refill(y, r2, dt, list(y.site_tags), prefix="f")
+    return y
+
+
+@recipe("align")
+def r_align(x, rng):
+    if hasattr(x, "site_ind_id"):
+        return Call(partner(x, rng, "op"))
+    if rng.integers(0, 2):
+        return Call(partner(x, rng, "vec"))
+    other = partner(x, rng, "op")
+    other.lower_ind_id = id_fmt(x, "c")  # two operators can only be stacked when their lower ids differ
+    return Call(other)
+
+
+@recipe("flatten")
+def r_flatten(x, rng):
+    return Call()
+
+
+@recipe("retag_all")
+def r_retag_all(x, rng):
+    return Call(id_fmt(x, "Q"))
+
+
+@recipe("reindex_all")
+def r_reindex_all(x, rng):
+    return Call(id_fmt(x, "q"))
+
+
+@recipe("reindex_sites", "reindex_upper_sites", "reindex_lower_sites")
+def r_reindex_sites(x, rng):
+    if rng.integers(0, 2):
+        return Call(id_fmt(x, "q"))
+    sites = list(x.sites)
+    if hasattr(x, "slice2sites"):
+        a = int(rng.integers(0, len(sites) - 1))
+        return Call(id_fmt(x, "q"), where=slice(a, int(rng.integers(a + 1, len(sites) + 1))))
+    where = pick(rng, sites, int(rng.integers(1, len(sites) + 1)))
+    return Call(id_fmt(x, "q"), where=where)
+
+
+@recipe("gate_simple")
+def r_gate_simple(x, rng):
+    two = bool(rng.integers(0, 2))
+    if two:
+        a, b = pick(rng, nn_sites(x))
+        where = [a, b]
+    else:
+        where = [pick(rng, list(x.sites))]
+    G = rand_gate(rng, 2 ** len(where), x.dtype, unitary=True)
+    return Call(G, where, gauges={}, inout=("gauges",), tol=INV64, **NOTRUNC)
+
+
+@recipe("gate_with_op_lazy", "gate_upper_with_op_lazy", "gate_lower_with_op_lazy", "gate_sandwich_with_op_lazy")
+def r_with_op_lazy(x, rng):
+    return Call(partner(x, rng, "op"))
+
+
+@recipe("gate_upper", "gate_lower", "gate_sandwich")
+def r_gate_op(x, rng):
+    two = bool(rng.integers(0, 2))
+    if two:
+        a, b = pick(rng, nn_sites(x))
+        where = [a, b]
+        contract = pick(rng, [False, True, "split", "reduce-split"])
+    else:
+        where = [pick(rng, list(x.sites))]
+        contract = pick(rng, [False, True])
+    G = rand_gate(rng, 2 ** len(where), x.dtype, unitary=True)
+    kw = dict(contract=contract)
+    tol = EXACT64
+    if contract in ("split", "reduce-split"):
+        kw.update(NOTRUNC)
+        tol = INV64
+    return Call(G, where, tol=tol, **kw)
+
+
+@recipe("partial_transpose")
+def r_partial_transpose(x, rng):
+    sites = list(x.sites)
+    return Call(pick(rng, sites, int(rng.integers(1, len(sites) + 1))))
+
+
+@recipe("apply")
+def r_apply(x, rng):
+    qtn = Q()
+    kind = "vec" if rng.integers(0, 2) else "op"
+    other = partner(x, rng, kind)
+    kw = {}
+    if isinstance(x, qtn.MatrixProductOperator):
+        return Call(other, compress=False, tol=INV64)
+    return Call(other, tol=INV64)
+
+
+# ---- 1D ------------------------------------------------------------------------------
+
+@recipe("add_MPS", "add_MPO", "add_PEPS", "add_PEPO")
+def r_add(x, rng):
+    return Call(other_like(x, rng))
+
+
+@recipe("canonicalize")
+def r_canonicalize(x, rng):
+    L = x.L
+    if rng.integers(0, 2):
+        return Call(int(rng.integers(0, L)), tol=INV64)
+    i = int(rng.integers(0, L - 1))
+    return Call((i, int(rng.integers(i, L))), tol=INV64)
+
+
+@recipe("left_canonicalize", "right_canonicalize")
+def r_lr_canonicalize(x, rng):
+    if rng.integers(0, 2):
+        return Call(tol=INV64)
+    return Call(normalize=True, tol=INV64)
+
+
+@recipe("swap_site_to")
+def r_swap_site_to(x, rng):
+    i, f = pick(rng, list(range(x.L)), 2)
+    return Call(i, f, tol=INV64, **NOTRUNC)
+
+
+@recipe("swap_sites_with_compress")
+def r_swap_sites(x, rng):
+    i = int(rng.integers(0, x.L - 1))
+    return Call(i, i + 1, tol=INV64, **NOTRUNC)
+
+
+@recipe("gate_split")
+def r_gate_split(x, rng):
+    i = int(rng.integers(0, x.L - 1))
+    G = rand_gate(rng, 4, x.dtype, unitary=True)
+    return Call(G, (i, i + 1), tol=INV64, **NOTRUNC)
+
+
+@recipe("gate_with_auto_swap", "gate_nonlocal", "gate_sandwich_with_auto_swap")
+def r_gate_far(x, rng):
+    i, j = pick(rng, list(range(x.L)), 2)
+    G = rand_gate(rng, 4, x.dtype, unitary=True)
+    return Call(G, (i, j), tol=INV64, **NOTRUNC)
+
+
+@recipe("gate_with_mpo")
+def r_gate_with_mpo(x, rng):
+    return Call(partner(x, rng, "op"), tol=INV64, **NOTRUNC)
+
+
+@recipe("gate_with_submpo")
+def r_gate_with_submpo(x, rng):
+    qtn = Q()
+    i, j = sorted(pick(rng, list(range(x.L)), 2))
+    G = rand_gate(rng, 4, x.dtype, unitary=True)
+    sub = qtn.MatrixProductOperator.from_dense(G, dims=2, sites=(i, j), L=x.L)
+    return Call(sub, tol=INV64, **NOTRUNC)
+
+
+@recipe("measure")
+def r_measure(x, rng):
+    site = int(rng.integers(0, x.L))
+    kw = dict(seed=int(rng.integers(0, 2 ** 31)))
+    if rng.integers(0, 2):
+        kw["outcome"] = int(rng.integers(0, 2))
+    if rng.integers(0, 3) == 0:
+        kw["remove"] = True
+    return Call(site, tol=INV64, **kw)
+
+
+@recipe("fill_empty_sites")
+def r_fill_empty(x, rng):
+    qtn = Q()
+    L = 4
+    sites = sorted(pick(rng, list(range(L)), 2))
+    G = rand_gate(rng, 4, x.dtype)
+    sub = qtn.MatrixProductOperator.from_dense(G, dims=2, sites=tuple(sites), L=L)
+    return Call(pick(rng, ["full", "minimal"]), x=sub)
+
+
+# ---- 2D / 3D --------------------------------------------------------------------------
+
+def lat_dims(x):
+    return [getattr(x, a) for a in ("Lx", "Ly", "Lz") if hasattr(x, a)]
+
+
+@recipe("coarse_grain_hotrg")
+def r_cg_hotrg(x, rng):
+    dims = lat_dims(x)
+    dirs = [d for d, L in zip("xyz", dims) if L >= 2]
+    return Call(pick(rng, dirs), tol=INV64, loose=True, **NOTRUNC)
+
+
+@recipe("contract_hotrg", "contract_ctmrg", "contract_boundary", "contract_mps_sweep")
+def r_contract_lattice(x, rng):
+    return Call(tol=INV64, loose=True, **NOTRUNC)
+
+
+@recipe("contract_boundary_from")
+def r_cb_from(x, rng):
+    dims = lat_dims(x)
+    ranges = [(0, L - 1) for L in dims]
+    which = pick(rng, [d + m for d, L in zip("xyz", dims) if L >= 2 for m in ("min", "max")])
+    return Call(*ranges, which, tol=INV64, loose=True, **NOTRUNC)
+
+
+def _cb_from_side(side):
+    def fn(x, rng):
+        L = x.Lx if side[0] == "x" else x.Ly
+        if L < 2:
+            raise Reject("lattice too small")
+        rng_ = (0, 1) if side.endswith("min") else (L - 2, L - 1)
+        return Call(rng_, tol=INV64, loose=True, **NOTRUNC)
+    return fn
+
+
+for _s in ("xmin", "xmax", "ymin", "ymax"):
+    RECIPES["contract_boundary_from_" + _s] = _cb_from_side(_s)
+
+
+# (class, name) pairs that are deliberately not exercised, with the reason
+SKIP = {
+    ("PEPS3D", "gate_with_op_lazy"): "no 3D operator class to build the argument from",
+}
